@@ -192,6 +192,29 @@ Qed.
 
 (* without batching, a height without a committed filter header to verify
    against (0, or above the best filter header) is refused outright *)
+(* whatever the arguments (no bound on height or best needed): a prepared
+   range lies inside [1, best] *)
+Lemma prepare_pend_bounds height best batch maxb start stop pend x :
+  prepare height best batch maxb = POk start stop pend -> In x pend -> 1 <= x <= best.
+Proof.
+  unfold prepare.
+  destruct (if batch =? 0 then Some (height, height)
+            else if batch =? 1 then Some (height, height + batch_size maxb - 1)
+            else if batch =? 2 then Some (height - batch_size maxb + 1, height) else None)
+    as [[st0 sp0]|]; [|discriminate].
+  cbv zeta.
+  set (st := if st0 <? 1 then 1 else st0). set (sp := if best <? sp0 then best else sp0).
+  destruct (sp <? st) eqn:E; [discriminate|].
+  destruct ((0 <=? sp) && ((sp - st + 1) mod two32 <=? sp)); [|discriminate].
+  intros [= <- <- <-] Hin.
+  assert (Hn : 0 <= (sp - st + 1) mod two32 <= sp - st + 1).
+  { split; [apply Z.mod_pos_bound; unfold two32; lia|apply Z.mod_le; unfold two32; lia]. }
+  apply zrange_In in Hin; [|lia].
+  assert (1 <= st) by (unfold st; destruct (st0 <? 1) eqn:E1; lia).
+  assert (sp <= best) by (unfold sp; destruct (best <? sp0) eqn:E2; lia).
+  lia.
+Qed.
+
 Lemma prepare_nobatch_refused height best maxb :
   height = 0 \/ best < height -> prepare height best 0 maxb = PErr.
 Proof.
@@ -527,6 +550,21 @@ Section Oracles.
     intros Hres. destruct (o_queried (snd (get_cfilter st c))) eqn:Hq.
     - destruct (get_cfilter_from_network st c f Hres Hq) as (_ & _ & r & _ & _ & _ & _ & Hv). exact Hv.
     - destruct (get_cfilter_from_local st c f Hres Hq) as [Hl _]. apply local_ok_verified, Hl.
+  Qed.
+
+  (* the boundary: a filter is returned only for a known block at a height
+     0 <= h <= best (the committed filter-header tip) — from any source, in
+     any state, for any arguments *)
+  Lemma get_cfilter_has_header st c f :
+    o_res (snd (get_cfilter st c)) = RFilter f ->
+    c_known c = true /\ 0 <= c_blk c <= best.
+  Proof.
+    intros Hres. destruct (o_queried (snd (get_cfilter st c))) eqn:Hq.
+    - destruct (get_cfilter_from_network st c f Hres Hq) as (_ & (s0 & e0 & p0 & Hp & Hin) & _).
+      pose proof (prepare_pend_bounds _ _ _ _ _ _ _ _ Hp Hin) as Hb. clear Hp Hin Hres.
+      split; [|lia]. revert Hq. gc c st; try discriminate. reflexivity.
+    - destruct (get_cfilter_from_local st c f Hres Hq) as [Hl _].
+      unfold Model.local_ok in Hl. rewrite !andb_true_iff in Hl. split; [tauto|lia].
   Qed.
 
   (* if no well-formed response for the target block satisfies the relation
@@ -1076,6 +1114,22 @@ Section Rewrites.
     intros st Hc Hres. destruct (xstep_call_hdrs st o c Hc) as (Eh & Er & _).
     split; [|exact Eh]. rewrite Er in Hres. unfold gcall in Hres.
     eapply get_cfilter_verified, Hres.
+  Qed.
+
+  (* nothing above the committed filter-header tip: after any history — in
+     which rewrites may lower the tip below blocks whose filters are cached or
+     stored (rollback without re-commit, reset on restart) — no call returns
+     a filter for an unknown hash or a height above the CURRENT tip *)
+  Lemma nothing_above_filter_tip ops1 o st0 c :
+    let st := xfinal st0 ops1 in
+    call_of o = Some c ->
+    c_known c = false \/ xbest st < c_blk c \/ c_blk c < 0 ->
+    is_err (o_res (snd (xstep st o))) = true.
+  Proof.
+    intros st Hc Hout. destruct (xstep_call_hdrs st o c Hc) as (_ & Er & _). rewrite Er.
+    destruct (o_res (snd (gcall st c))) as [f| | | | |] eqn:Hres; try reflexivity. exfalso.
+    destruct (get_cfilter_has_header Hf (hdrs st) fsize (xbest st) cap persist (base st) c f Hres) as [Hk Hb].
+    destruct Hout as [H|[H|H]]; [congruence|lia|lia].
   Qed.
 
   (* what a call fetches from the network, and what it adds to the cache,
